@@ -209,6 +209,26 @@ pub fn run(mut run: Run) -> i32 {
             true,
             off,
         );
+        // constrained_outer_triangulation keeps the polygon's edges as constraints and tiles the convex hull
+        check_tris(
+            acc,
+            idx,
+            "constrained_outer_triangulation",
+            p,
+            &pg,
+            guard(|| TriangulateDelaunay::constrained_outer_triangulation(&pg, DelaunayTriangulationConfig::default())).and_then(|r| r.map_err(|e| format!("{:?}", e))),
+            true,
+            off,
+        );
+        // the deprecated TriangulateSpade trait is a second copy of the same three entry points
+        #[allow(deprecated)]
+        if idx % 4 < 2 {
+            use geo::algorithm::triangulate_spade::SpadeTriangulationConfig;
+            use geo::TriangulateSpade;
+            check_tris(acc, idx, "TriangulateSpade::constrained_triangulation", p, &pg, guard(|| TriangulateSpade::constrained_triangulation(&pg, SpadeTriangulationConfig::default())).and_then(|r| r.map_err(|e| format!("{:?}", e))), false, off);
+            check_tris(acc, idx, "TriangulateSpade::constrained_outer_triangulation", p, &pg, guard(|| TriangulateSpade::constrained_outer_triangulation(&pg, SpadeTriangulationConfig::default())).and_then(|r| r.map_err(|e| format!("{:?}", e))), true, off);
+            check_tris(acc, idx, "TriangulateSpade::unconstrained_triangulation", p, &pg, guard(|| TriangulateSpade::unconstrained_triangulation(&pg)).and_then(|r| r.map_err(|e| format!("{:?}", e))), true, off);
+        }
         // stitch(constrained Delaunay) has the same area and the same exterior on the half-step lattice (touching rings included)
         {
             acc.evals += 1;
